@@ -94,11 +94,11 @@ func (g *gen) term() string {
 		}
 		return "{" + strings.Join(kv, ", ") + "}"
 	case 3:
-		return "[" + g.term() + " | " + g.body(1+g.r.Below(2), "; ") + "]"
+		return "[" + g.headTerm() + " | " + g.body(1+g.r.Below(2), "; ") + "]"
 	case 4:
-		return "{" + g.term() + " | " + g.body(1+g.r.Below(2), "; ") + "}"
+		return "{" + g.headTerm() + " | " + g.body(1+g.r.Below(2), "; ") + "}"
 	case 5:
-		return "{" + g.str() + ": " + g.term() + " | " + g.body(1, "; ") + "}"
+		return "{" + g.str() + ": " + g.headTerm() + " | " + g.body(1, "; ") + "}"
 	case 6:
 		return fmt.Sprintf(g.pick(builtinsCalls), g.term())
 	case 7:
@@ -107,6 +107,22 @@ func (g *gen) term() string {
 		return "(" + g.term() + ")"
 	case 9:
 		return g.ident() + "(" + g.terms(1+g.r.Below(2)) + ")"
+	default:
+		return g.scalar()
+	}
+}
+
+// headTerm: head of a comprehension — an infix expression there would turn `|` into the union operator
+func (g *gen) headTerm() string {
+	switch g.r.Below(6) {
+	case 0:
+		return "[" + g.scalar() + ", " + g.scalar() + "]"
+	case 1:
+		return "{" + g.str() + ": " + g.scalar() + "}"
+	case 2:
+		return fmt.Sprintf(g.pick(builtinsCalls), g.scalar())
+	case 3:
+		return "(" + g.term() + ")"
 	default:
 		return g.scalar()
 	}
@@ -205,14 +221,14 @@ func (g *gen) elseChain() string {
 
 func (g *gen) rule() string {
 	var sb strings.Builder
+	if g.r.Below(8) == 0 {
+		sb.WriteString("# regal ignore:" + g.pick([]string{"line-length", "all", "prefer-snake-case,todo-comment", ""}) + "\n")
+	}
 	if g.r.Below(6) == 0 {
 		sb.WriteString("# METADATA\n# description: " + g.pick(strs[:6]) + " x\n")
 		if g.r.Bool() {
 			sb.WriteString("# scope: rule\n")
 		}
-	}
-	if g.r.Below(8) == 0 {
-		sb.WriteString("# regal ignore:" + g.pick([]string{"line-length", "all", "prefer-snake-case,todo-comment", ""}) + "\n")
 	}
 	bodyN := 1 + g.r.Below(4)
 	switch g.r.Below(12) {
@@ -221,9 +237,17 @@ func (g *gen) rule() string {
 	case 1:
 		sb.WriteString(g.headRef() + " := " + g.term())
 	case 2:
-		sb.WriteString(g.headRef() + " if {\n\t" + g.body(bodyN, "\n\t") + "\n}" + g.elseChain())
+		if g.r.Bool() {
+			sb.WriteString(g.ident() + " if {\n\t" + g.body(bodyN, "\n\t") + "\n}" + g.elseChain())
+		} else {
+			sb.WriteString(g.headRef() + " if {\n\t" + g.body(bodyN, "\n\t") + "\n}")
+		}
 	case 3:
-		sb.WriteString(g.headRef() + " := " + g.term() + " if {\n\t" + g.body(bodyN, "\n\t") + "\n}" + g.elseChain())
+		if g.r.Bool() {
+			sb.WriteString(g.ident() + "." + g.ident() + " := " + g.term() + " if {\n\t" + g.body(bodyN, "\n\t") + "\n}" + g.elseChain())
+		} else {
+			sb.WriteString(g.headRef() + " := " + g.term() + " if {\n\t" + g.body(bodyN, "\n\t") + "\n}")
+		}
 	case 4:
 		sb.WriteString(g.headRef() + " contains " + g.term() + " if {\n\t" + g.body(bodyN, "\n\t") + "\n}")
 	case 5:
